@@ -225,12 +225,13 @@ def run(ctx):
     os.environ["WS_CATALOG"] = c.write(os.path.join(ctx.scratch, "catalog.ndjson"))
     t0 = time.time()
     r = _mc(ctx, "ws", "MC_WsReceiver", "MC_WsReceiver.cfg", env={"WS_CATALOG": os.environ["WS_CATALOG"]},
-               overrides=ctx.pick({}, {"MaxDelivered": 3, "PieceKinds": '{"zero", "one", "half"}'}),
+               overrides=ctx.pick({}, {"PieceKinds": '{"zero", "one", "half"}'}),
                required_actions=["SendData", "SendPing", "SendPong", "SendClose", "SendViolation", "SendAfter"])
     ctx._phase("mc", t0)
     t0 = time.time()
     paths = ctx.gen_paths("ws", "Gen_WsReceiver", "Gen_WsReceiver.cfg",
-                          overrides=ctx.pick({"L": 3}, {"L": 4, "BadOps": "{3, 4, 5, 6, 7, 11, 12, 13, 14, 15}"}))
+                          overrides=ctx.pick({"L": 3}, {"L": 3, "BadOps": "{3, 4, 5, 6, 7, 11, 12, 13, 14, 15}", "CtlLens": "{0, 5, 125}",
+                                                      "PieceKinds": '{"one", "half", "rest1"}'}))
     ctx._phase("gen", t0)
     t0 = time.time()
     ctx.replay(expand(paths, ctx.seed, ctx.pick(1, 2)), replayer)
@@ -254,7 +255,7 @@ def run(ctx):
     ctx.cov["rule"] = ("paths: every frame sequence of length <= %d over the catalogue around max_message_size=%d "
                        "(valid pieces, pings/pongs/close, one violation of each kind), each replayed in the server or the "
                        "client role (thorough: both) under hashed deflate-parameter / segmentation variants; distinct = distinct "
-                       "(config, variant, frame sequence)" % (ctx.pick(3, 4), LIMIT))
+                       "(config, variant, frame sequence)" % (3, LIMIT))
 
 
 def replay(ctx, rec):
